@@ -411,7 +411,10 @@ fn gen_doc(rng: &mut Rng, cols: &[String], root_class: bool) -> Doc {
         let cls = if classes.is_empty() { String::new() } else { format!(" class=\"{}\"", classes.join(csep)) };
         let y = 15 * i;
         let txt = if rng.chance(1, 3) { format!(" text=\"t{i}\"") } else { String::new() };
-        body.push(match rng.below(9) {
+        body.push(match rng.below(10) {
+            // a <text> written by hand with <tspan> children: svgdx does not lay it out (no d-text class is
+            // added), but it is a text element like any other and may use the text classes
+            9 => format!("<text x=\"3\" y=\"{y}\"{cls}><tspan{}>a{i}</tspan><tspan dy=\"1em\">b</tspan></text>", if rng.chance(1, 2) { format!(" class=\"{}\"", rng.pick(&["d-text-bold", "d-text-italic", "d-text-large", "d-text-ol", "d-text-monospace"])) } else { String::new() }),
             0 | 1 => format!("<rect xy=\"0 {y}\" wh=\"20 10\"{cls}{txt}/>"),
             2 => format!("<circle cxy=\"5 {y}\" r=\"4\"{cls}{txt}/>"),
             3 => format!("<ellipse cxy=\"8 {y}\" rxy=\"6 3\"{cls}{txt}/>"),
